@@ -1,6 +1,13 @@
 (** C07 — HTTP requests and responses pass through unaltered apart from routing
     (proxy/http_proxy.go:83-236, proxy/http_handler.go:17-37, noroute/store.go).
     This file contains only statements, [exact], and [Print Assumptions]. *)
+(* Reading guide.  Definitional statements (true by construction of the model; their substance is the
+   correspondence run, they are NOT counted as coverage): C07_method_body_identity,
+   C07_noroute_no_upstream, C07_noroute_status, C07_routed_one_upstream, the status/body part of
+   C07_response_identity.  Historical records of repaired behaviour (functions no code corresponds to
+   any more): C07_strip_keeps_encoding_unrepaired, C07_gzip_added_unrepaired.
+   Theorems that back the check's verdict 4: C07_strip_on_domain / C07_ws_target_on_domain (group A),
+   C07_spec_forward_rest_holds / C07_spec_response_holds (group B). *)
 From Coq Require Import String List NArith ZArith Bool.
 From Fabio Require Import Lib.Outcome Lib.Bytes Model.UrlPathC07 Model.HttpFwd
   Proofs.UrlPathC07 Proofs.HttpFwd.
@@ -103,6 +110,7 @@ Print Assumptions C07_strip_prepend_keep_raw.
 Theorem C07_slash_ok_slash : forall rest d,
   unescape rest = Ok d -> has_prefix rest [47] = true -> slash_ok rest = true.
 Proof. exact slash_ok_slash. Qed.
+Print Assumptions C07_slash_ok_slash.
 
 Theorem C07_keep_raw_nonvacuous :
   let o := mk_opts "/strip" "/pre" in let q := mk_req "/strip/a%2Fb/%41" in
@@ -112,6 +120,7 @@ Theorem C07_keep_raw_nonvacuous :
   /\ canonical_raw (raw_path_of (rq_target q)) = false
   /\ exists u, forward false o q = Ok u /\ up_target u = bs "/pre/a%2Fb/%41".
 Proof. exact keep_raw_nonvacuous. Qed.
+Print Assumptions C07_keep_raw_nonvacuous.
 
 (* what still loses the client's encoding (region 1 as narrowed by the fix): the strip prefix itself
    percent-encoded in the request, ... *)
@@ -179,12 +188,14 @@ Theorem C07_strip_on_domain_nonvacuous :
   /\ region_strip_encoding o (rq_target q) = false /\ region_invalid_byte o (rq_target q) = false
   /\ exists u, forward false o q = Ok u /\ up_target u = bs "/pre/x%20y/z?q=1" /\ spec_forward o q u = true.
 Proof. exact on_domain_nonvacuous. Qed.
+Print Assumptions C07_strip_on_domain_nonvacuous.
 
 Theorem C07_no_opts_nonvacuous :
   let o := mk_opts "" "" in let q := mk_req "/a%2Fb/%41?x=%2F" in
   valid_encoded (raw_path_of (rq_target q)) = true
   /\ exists u, forward false o q = Ok u /\ up_target u = rq_target q.
 Proof. exact no_opts_nonvacuous. Qed.
+Print Assumptions C07_no_opts_nonvacuous.
 
 (* method and body are the client's; every header outside the hop-by-hop set arrives with the
    same values in the same order.  This is a theorem about the MODEL of httputil.ReverseProxy
@@ -196,19 +207,21 @@ Print Assumptions C07_method_body_identity.
 
 Theorem C07_headers_identity : forall o q u k,
   forward false o q = Ok u ->
+  mem_str k managed_req = false ->   (* the forwarding headers are property C08's; outside this model *)
   is_hop (rq_headers q) k = false ->
   (k = k_user_agent -> hhas (rq_headers q) k = true) ->
   hvalues (up_headers u) k = hvalues (rq_headers q) k.
-Proof. exact headers_identity. Qed.
+Proof. exact headers_identity_e2e. Qed.
 Print Assumptions C07_headers_identity.
 
 (* over real sockets (fabio's transport, compression disabled since fix 5e1efca) nothing is
    added either: every non-hop header but User-Agent (first value only) is the client's *)
 Theorem C07_headers_identity_wire : forall o q u k,
   forward true o q = Ok u ->
+  mem_str k managed_req = false ->
   is_hop (rq_headers q) k = false -> k <> k_user_agent ->
   hvalues (up_headers u) k = hvalues (rq_headers q) k.
-Proof. exact headers_identity_wire. Qed.
+Proof. exact headers_identity_wire_e2e. Qed.
 Print Assumptions C07_headers_identity_wire.
 
 (* before 5e1efca the transport added Accept-Encoding: gzip of its own *)
@@ -226,6 +239,79 @@ Theorem C07_no_gzip_added_example :
     /\ hvalues (up_headers u) k_accept_encoding = []
     /\ spec_forward (mk_opts "" "") (mk_req "/x") u = true.
 Proof. exact no_gzip_added_example. Qed.
+Print Assumptions C07_no_gzip_added_example.
+
+(* no header reaches the upstream that the client did not send, except the proxy's own (Te: trailers,
+   Connection/Upgrade of an upgrade request, the empty User-Agent = "send none"); and what does
+   arrive from the client is not hop-by-hop.  (The forwarding headers of property C08 are added by
+   addHeaders outside this model; the check projects them away.) *)
+Theorem C07_no_new_headers : forall wire o q u k v,
+  forward wire o q = Ok u -> In (k, v) (up_headers u) ->
+  (In (k, v) (rq_headers q) /\ is_hop (rq_headers q) k = false) \/ own_header k v.
+Proof. exact no_new_headers. Qed.
+Print Assumptions C07_no_new_headers.
+
+(* the boolean specification the correspondence check evaluates on the implementation's
+   observables (group B: method, body, Host, end-to-end headers, nothing new) holds of the model
+   for every request; over a real connection outside region 4 (User-Agent repeated or empty) *)
+Theorem C07_spec_forward_rest_holds : forall wire o q u,
+  forward wire o q = Ok u -> (wire = true -> region_ua_wire q = false) ->
+  spec_forward_rest o q u = true.
+Proof. exact spec_forward_rest_holds. Qed.
+Print Assumptions C07_spec_forward_rest_holds.
+
+Theorem C07_spec_rest_nonvacuous :
+  let q := {| rq_method := bs "POST"; rq_target := bs "/x"; rq_host := bs "example.com";
+              rq_headers := [(bs "Accept", bs "*/*"); (bs "Connection", bs "X-Foo, close"); (bs "Cookie", bs "a=1");
+                             (bs "Cookie", bs "b=2"); (bs "Te", bs "trailers"); (bs "X-Foo", bs "1")];
+              rq_body := bs "body" |} in
+  region_ua_wire q = false
+  /\ exists u, forward true (mk_opts "" "") q = Ok u
+       /\ map fst (up_headers u) = [bs "Accept"; bs "Cookie"; bs "Cookie"; bs "Te"].
+Proof. exact spec_rest_nonvacuous. Qed.
+Print Assumptions C07_spec_rest_nonvacuous.
+
+(* region 4: Go's http.Transport writes only the first User-Agent value, none when it is empty *)
+Theorem C07_ua_wire_refuted :
+  (exists u, forward true (mk_opts "" "") (mk_req_ua ["a/1"%string; "b/2"%string]) = Ok u
+     /\ region_ua_wire (mk_req_ua ["a/1"%string; "b/2"%string]) = true
+     /\ hvalues (up_headers u) k_user_agent = [bs "a/1"]
+     /\ spec_forward_rest (mk_opts "" "") (mk_req_ua ["a/1"%string; "b/2"%string]) u = false)
+  /\ (exists u, forward true (mk_opts "" "") (mk_req_ua [""%string]) = Ok u
+     /\ region_ua_wire (mk_req_ua [""%string]) = true
+     /\ hvalues (up_headers u) k_user_agent = []
+     /\ spec_forward_rest (mk_opts "" "") (mk_req_ua [""%string]) u = false).
+Proof. exact ua_wire_refuted. Qed.
+Print Assumptions C07_ua_wire_refuted.
+
+(* Host, clause by clause *)
+Theorem C07_host_dst : forall wire o q u,
+  forward wire o q = Ok u -> ro_host o = dst -> up_host u = ro_thost o.
+Proof. exact host_dst. Qed.
+Print Assumptions C07_host_dst.
+Theorem C07_host_named : forall wire o q u,
+  forward wire o q = Ok u -> ro_host o <> [] -> ro_host o <> dst -> up_host u = ro_host o.
+Proof. exact host_named. Qed.
+Print Assumptions C07_host_named.
+
+(* websocket upgrade (request line written from the target URL): same target, Host and method
+   as the specification asks, outside regions 1, 2 and 5 (a lone trailing '?') *)
+Theorem C07_ws_target_on_domain : forall o q m t h,
+  all_lt_256 (rq_target q) = true ->
+  ws_forward o q = Ok (m, t, h) ->
+  region_ws_lone_q (rq_target q) = false ->
+  region_strip_encoding o (rq_target q) = false ->
+  region_invalid_byte o (rq_target q) = false ->
+  t = spec_target o (rq_target q) /\ h = spec_host o (rq_host q) /\ m = rq_method q.
+Proof. exact ws_target_on_domain. Qed.
+Print Assumptions C07_ws_target_on_domain.
+
+Theorem C07_ws_lone_q_refuted :
+  exists o q m t h, ws_forward o q = Ok (m, t, h)
+    /\ region_ws_lone_q (rq_target q) = true
+    /\ spec_target o (rq_target q) = bs "/x?" /\ t = bs "/x".
+Proof. exact ws_lone_q_refuted. Qed.
+Print Assumptions C07_ws_lone_q_refuted.
 
 (* ---- the response ---- *)
 Theorem C07_response_identity : forall r,
@@ -234,6 +320,19 @@ Theorem C07_response_identity : forall r,
                hvalues (rs_headers (respond r)) k = hvalues (rs_headers r) k.
 Proof. exact response_identity. Qed.
 Print Assumptions C07_response_identity.
+
+(* the boolean response specification of the check holds of the model for every upstream response
+   and every projection *)
+Theorem C07_spec_response_holds : forall drop r, spec_response drop r (respond r) = true.
+Proof. exact spec_response_respond. Qed.
+Print Assumptions C07_spec_response_holds.
+
+Theorem C07_on_domain_noncanonical_nonvacuous :
+  let o := mk_opts "/strip" "" in let q := mk_req "/strip/a%2Fb" in
+  canonical_raw (raw_path_of (rq_target q)) = false
+  /\ region_strip_encoding o (rq_target q) = false /\ region_invalid_byte o (rq_target q) = false.
+Proof. exact on_domain_noncanonical_nonvacuous. Qed.
+Print Assumptions C07_on_domain_noncanonical_nonvacuous.
 
 (* ---- no route ---- *)
 Theorem C07_noroute_no_upstream : forall wire cf q answer,
